@@ -80,14 +80,30 @@ def par(jobs, n):
         return [f.result() for f in futs]
 
 
+def tlc_retry(name, *a, **kw):
+    """tlc_must_pass; a JVM killed from outside (OOM killer on a loaded machine: rc -9 / 137) is retried once, alone."""
+    try:
+        return tlc_must_pass(name, *a, **kw)
+    except Broken as ex:
+        if "rc=-9" not in str(ex) and "rc=137" not in str(ex):
+            raise
+    import time
+    time.sleep(10)
+    return tlc_must_pass(name, *a, **kw)
+
+
+# the largest configurations are checked for the invariants only (liveness is checked on all the others)
+NO_LIVENESS = {"C3", "C3b", "C5s", "C7"}
+
+
 def run_models_and_mutants(v, names, muts, timeout=1500, pool=4):
     """muts: (config, mutant, must_be_refuted).  A control mutant (must_be_refuted=False) has to PASS:
     it shows that the neighbouring mutant is refuted because of the mutated step and nothing else."""
     w = max(2, NCPU // pool)
-    jobs = [(lambda n=n: tlc_must_pass(n, "MCChain.tla", chain_cfg(n), timeout=timeout, workers=w, metaname="C03_chain_%s" % n))
-            for n in names]
-    jobs += [(lambda c=c, m=m: tlc_must_pass("mutant %s" % m, "MCChain.tla", chain_cfg(c, mut=m, live=False, invs=INVS_PROP),
-                                             timeout=900, workers=w, metaname="C03_mut_%s" % m)) for c, m, _ in muts]
+    jobs = [(lambda n=n: tlc_retry(n, "MCChain.tla", chain_cfg(n, live=n not in NO_LIVENESS), timeout=timeout, workers=w, heap="3g",
+                                   metaname="C03_chain_%s" % n)) for n in names]
+    jobs += [(lambda c=c, m=m: tlc_retry("mutant %s" % m, "MCChain.tla", chain_cfg(c, mut=m, live=False, invs=INVS_PROP),
+                                         timeout=900, workers=w, heap="2g", metaname="C03_mut_%s" % m)) for c, m, _ in muts]
     res = par(jobs, pool)
     for n, r in zip(names, res):
         v.add_model("Chain/" + n, r)
@@ -176,7 +192,11 @@ def word_level_hint(tr, d, tag):
 
 def wordtrace_cfg(W):
     cfg = os.path.join(rundir(PROP), "LaneWordTrace_W%d.cfg" % W)
-    open(cfg, "w").write(open(os.path.join(SPEC, "cfg", "LaneWordTrace.cfg")).read().replace("W = 1", "W = %d" % W))
+    txt = open(os.path.join(SPEC, "cfg", "LaneWordTrace.cfg")).read().replace("W = 1", "W = %d" % W)
+    if not os.path.exists(cfg) or open(cfg).read() != txt:      # validations run concurrently: never rewrite a cfg in use
+        tmp = "%s.%d.tmp" % (cfg, os.getpid())
+        open(tmp, "w").write(txt)
+        os.replace(tmp, cfg)
     return cfg
 
 
@@ -226,21 +246,26 @@ def drive(v, seed, runs):
     todo = []
     for W in (1, 2, 3):
         wordtrace_cfg(W)
-    for i, r in enumerate(runs):
-        s = seed * 1000 + i
+    def one(i, r):
         tr = os.path.join(d, "chain_%d.ndjson" % i)
         if os.path.exists(tr):
             os.unlink(tr)
+        cmd = [drv, tr, str(seed * 1000 + i), str(r.get("perturb", 2)), str(r.get("execs", 6)), str(r.get("ops", 30)), str(r["shape"]),
+               str(r.get("cw", 2)), str(r.get("pp", 1)), str(r.get("nt", 3))]
+        return sh(cmd, timeout=400)
+    # the executions run three at a time (more interference between them is welcome); judged in order afterwards
+    outs = par([(lambda i=i, r=r: one(i, r)) for i, r in enumerate(runs)], 3)
+    for i, r in enumerate(runs):
+        s = seed * 1000 + i
+        tr = os.path.join(d, "chain_%d.ndjson" % i)
         shape = r["shape"]
         desc = "shape=%d cw=%d nt=%d seed=%d" % (shape, r.get("cw", 2), r.get("nt", 3), s)
-        if shape == 6 and wl_defect:
-            continue     # every workloop-bottom run would crash the same way
-        cmd = [drv, tr, str(s), str(r.get("perturb", 2)), str(r.get("execs", 6)), str(r.get("ops", 30)), str(shape),
-               str(r.get("cw", 2)), str(r.get("pp", 1)), str(r.get("nt", 3))]
-        rc, out, err = sh(cmd, timeout=300)
+        rc, out, err = outs[i]
         if rc == 124:
             raise Broken("chain driver timed out (%s)" % desc)
         if rc == 70 and shape == 6 and WL_SIG in err:
+            if wl_defect:
+                continue      # every workloop-bottom run crashes the same way: reported once
             wl_defect = desc
             if WL_KEY in known:
                 v.known.append("%s: SIGSEGV in _dispatch_lane_drain (%s)" % (WL_KEY, desc))
@@ -275,7 +300,7 @@ def drive(v, seed, runs):
             body = [l for l in open(tr).read().splitlines() if '"St"' in l][:3] + \
                    [l for l in open(tr).read().splitlines() if '"St"' not in l][:6]
             v.samples.append({"trace": os.path.basename(tr), "mode": desc, "queues": len(parts), "excerpt": body})
-    results = par([(lambda t=t: validate_queue_run(t[0], t[2], t[3], t[5])) for t in todo], 8)
+    results = par([(lambda t=t: validate_queue_run(t[0], t[2], t[3], t[5])) for t in todo], 6)
     for t, res in zip(todo, results):
         validate_queue(v, t[0], t[1], t[2], t[3], t[4], t[5], res=res)
     if wl_defect:
@@ -292,10 +317,11 @@ def run(tier, seed):
         "real executions sample schedules (seeded perturbation inside the library's atomicity windows)",
     ]
     quick = tier == "quick"
+    os.environ.setdefault("VERIF_TLC_HEAP", "3g")     # many JVMs run side by side (here and in other checks)
     import time
     t0 = time.time()
     names = ["C1q", "C2q", "C3q", "C4q", "C5", "C7r"] if quick else \
-            ["C1q", "C1b", "C1", "C2q", "C2s", "C2", "C3q", "C3", "C3b", "C4q", "C4", "C5", "C5s", "C6", "C6x", "C7q", "C7r", "C7"]
+            ["C7", "C3", "C3b", "C5s", "C1", "C2", "C6x", "C1q", "C1b", "C2q", "C2s", "C3q", "C4q", "C4", "C5", "C6", "C7q", "C7r"]
     # sync_recurse stops before the bottom level -> a sync caller overlaps an item of the bottom queue;
     # complete_recurse forgets the bottom level -> the bottom stays locked, work is stranded;
     # the waiter popped from an inner queue is woken instead of being re-pushed on the target -> overlap;
@@ -305,7 +331,7 @@ def run(tier, seed):
     run_models_and_mutants(v, names, [("C4q", "recurse_skips_bottom", True), ("C1q", "complete_forgets_level", True),
                                       ("C4", "inner_waiter_woken", True),
                                       ("C5", "stale_enqueue", False), ("C5", "stale_enqueue_nocheck", True)],
-                           pool=3)
+                           pool=3, timeout=900 if quick else 3000)
     v.notes["equivalent_spec_mutant"] = ("repush_without_barrier_flag (waiter re-pushed on a serial target without DC_FLAG_BARRIER) "
                                          "is NOT observable: a serial drain and _dispatch_lane_barrier_complete treat every object of a "
                                          "width-1 queue as a barrier whatever its flags")
